@@ -103,9 +103,17 @@ class Stats:
         for k, v in out.extra.items():
             if isinstance(v, (set, frozenset)):
                 self.extra.setdefault(k, set()).update(v)
+            elif isinstance(v, dict):
+                d = self.extra.setdefault(k, {})
+                for kk, vv in v.items():
+                    d[kk] = d.get(kk, 0) + vv
             else:
                 self.extra[k] = self.extra.get(k, 0) + v
         for sig, msg in out.violations:
+            sc = self.extra.setdefault("violation_signatures", {})
+            sc[sig] = sc.get(sig, 0) + 1
+            if sc[sig] > 3:
+                continue  # keep at most three examples per signature
             if len(self.violations) < 200:
                 self.violations.append((sig, msg, case))
             else:
@@ -129,6 +137,10 @@ class Stats:
         for k, v in other.extra.items():
             if isinstance(v, (set, frozenset)):
                 self.extra.setdefault(k, set()).update(v)
+            elif isinstance(v, dict):
+                d = self.extra.setdefault(k, {})
+                for kk, vv in v.items():
+                    d[kk] = d.get(kk, 0) + vv
             else:
                 self.extra[k] = self.extra.get(k, 0) + v
         self.capped = self.capped or other.capped
@@ -172,6 +184,26 @@ def pmap(fn, items, nproc=None, chunksize=1):
         for st in pool.imap(_call, items, chunksize):
             total.merge(st)
     return total
+
+
+class WatchdogTimeout(BaseException):
+    """Wall-clock backstop fired (BaseException so library catch-alls cannot swallow it)."""
+
+
+def watchdog(seconds, fn, *args, **kw):
+    """Run fn under a wall-clock alarm; raises WatchdogTimeout if it does not return in time."""
+    import signal  # pylint: disable=import-outside-toplevel
+
+    def _fire(_sig, _frm):
+        raise WatchdogTimeout(f"no return within {seconds}s")
+
+    old = signal.signal(signal.SIGALRM, _fire)
+    signal.setitimer(signal.ITIMER_REAL, seconds)
+    try:
+        return fn(*args, **kw)
+    finally:
+        signal.setitimer(signal.ITIMER_REAL, 0)
+        signal.signal(signal.SIGALRM, old)
 
 
 def chunks(seq, n):
@@ -290,6 +322,8 @@ def finish(pid, tier, seed, level, stats: Stats, rule, t0, assumptions, extra_co
         cov["traces_validated_against_impl"] = stats.evaluations
     for k, v in stats.extra.items():
         cov[k] = len(v) if isinstance(v, (set, frozenset)) else v
+    if stats.extra.get("violation_signatures"):
+        print("  violation signatures:", json.dumps(stats.extra["violation_signatures"], sort_keys=True))
     if stats.notes:
         cov["notes"] = stats.notes[:20]
     if extra_cov:
